@@ -227,7 +227,11 @@ def run_direct(sc: Dict[str, Any], location: str, watchdog_s: float = 60.0) -> D
         timers.append(tm)
 
     fo = sc.get("first_output", "initial")
-    if fo == "initial":
+    if sc.get("first_only_producer0") and len(prod_dirs) > 1:
+        # only the FIRST-listed producer has output for a while; the others get theirs `others_at` virtual s later
+        at(0.3, ["output0"])
+        at(float(sc["first_only_producer0"]), ["output"])
+    elif fo == "initial":
         write_output()
     elif "at" in fo:
         at(fo["at"], ["output"])
